@@ -38,6 +38,7 @@ type Config struct {
 	WitnessModels bool
 	DumpObligations func(id, script string)
 	Tier int
+	witnessed *sync.Map
 }
 
 func (c *Config) defaults() {
@@ -61,6 +62,9 @@ func (c *Config) defaults() {
 	}
 	if c.MaxPreempt == 0 {
 		c.MaxPreempt = 2
+	}
+	if c.MaxPreempt < 0 {
+		c.MaxPreempt = 0
 	}
 	if c.Solver == "" {
 		c.Solver = "z3"
@@ -151,6 +155,7 @@ type Result struct {
 // Explore runs all paths of entry.
 func Explore(P *Program, entry *ssa.Function, cfg Config) *Result {
 	cfg.defaults()
+	cfg.witnessed = &sync.Map{}
 	res := &Result{Entry: entry.Name(), PathsByStatus: map[string]int{}, Findings: map[string]Finding{}, Reached: map[string]map[string]any{},
 		Funcs: map[string]int{}, Stubs: map[string]int{}}
 	t0 := time.Now()
@@ -567,7 +572,9 @@ func (in *Interp) reach(id string) {
 	in.reached[id] = true
 	var vals map[string]any
 	if in.cfg.WitnessModels {
-		_, vals = in.modelValues("")
+		if _, seen := in.cfg.witnessed.LoadOrStore(id, true); !seen {
+			_, vals = in.modelValues("")
+		}
 	}
 	in.result.Reached[id] = vals
 }
